@@ -193,6 +193,10 @@ Definition tp_edges_of_run (c : Tp.cfg) (tr : list (tid * ev)) : list edge :=
 Definition stw_witness : list (Stw.cfg * list (tid * ev)) :=
   [ (Stw.mkcfg 1 true true false,
      [(10, ECall 0 0 false); (10, ELock); (10, EEnq 0); (10, EBcast 0); (10, EUnlock); (10, ERet 0 true); (0, ELock); (0, EDeq 0); (0, EUnlock); (0, ERun 0); (10, ECall 0 1 false); (10, ELock); (10, EEnq 1); (10, EBcast 0); (10, EUnlock); (10, ERet 0 true); (10, ECall 0 2 false); (10, ELock); (10, EWait 1); (20, ECall 3 0 false); (20, ELock); (20, EDiscard 1); (20, EBcast 0); (20, EBcast 1); (20, EUnlock); (0, EDone 0); (0, ELock); (0, EUnlock); (0, EExit); (10, EWake 1); (10, EEnq 2); (10, EBcast 0); (10, EUnlock); (10, ERet 0 true); (20, EJoin 0); (20, EFree); (20, ERet 0 false)]);
+    (Stw.mkcfg 3 true true true,
+     [(10, ECall 0 0 false); (10, ELock); (10, EEnq 0); (10, EBcast 0); (10, EUnlock); (10, ERet 0 true); (10, ECall 0 1 false); (10, ELock); (10, EEnq 1); (10, EBcast 0); (10, EUnlock); (10, ERet 0 true); (10, ECall 0 2 false); (10, ELock); (10, EEnq 2); (10, EBcast 0); (10, EUnlock); (11, ECall 0 3 false); (11, ELock); (11, EWait 1); (0, ELock); (0, EDeq 0); (0, EUnlock); (0, ERun 0); (0, EDone 0); (20, ECall 3 0 true); (20, ELock); (20, EBcast 0); (20, EBcast 1); (20, EUnlock); (0, ELock); (0, EBcast 1)]);
+    (Stw.mkcfg 3 true true true,
+     [(10, ECall 0 0 false); (10, ELock); (10, EEnq 0); (10, EBcast 0); (10, EUnlock); (10, ERet 0 true); (10, ECall 0 1 false); (10, ELock); (10, EEnq 1); (10, EBcast 0); (10, EUnlock); (10, ERet 0 true); (10, ECall 0 2 false); (10, ELock); (10, EEnq 2); (10, EBcast 0); (10, EUnlock); (11, ECall 0 3 false); (11, ELock); (11, EWait 1); (0, ELock); (0, EDeq 0); (0, EUnlock); (0, ERun 0); (0, EDone 0); (0, ELock); (0, EBcast 1); (0, EUnlock)]);
     (Stw.mkcfg 1 true true true,
      [(10, ECall 0 0 false); (10, ELock); (10, EEnq 0); (10, EBcast 0); (10, EUnlock); (11, ECall 0 1 false); (11, ELock); (11, EWait 1); (0, ELock); (0, EDeq 0); (0, EUnlock); (0, ERun 0); (0, EDone 0); (0, ELock); (0, EBcast 1); (0, EWait 0)]);
     (Stw.mkcfg 1 true false false,
